@@ -95,7 +95,11 @@ class BiLinearForm(_Form):
                 values_e = (values_e_pg * dX_e_pg).integrate()
 
                 # add data
-                data[:, i, j] = np.reshape(values_e, groupElem.Ne)
+                values_e = np.reshape(values_e, groupElem.Ne)
+                if np.iscomplexobj(values_e) and not np.iscomplexobj(data):
+                    # a complex-valued form: keep the imaginary part
+                    data = data.astype(complex)
+                data[:, i, j] = values_e
 
         return data
 
@@ -172,7 +176,11 @@ class LinearForm(_Form):
             values_e = (values_e_pg * dX_e_pg).integrate()
 
             # add data
-            data[:, i, 0] = np.reshape(values_e, groupElem.Ne)
+            values_e = np.reshape(values_e, groupElem.Ne)
+            if np.iscomplexobj(values_e) and not np.iscomplexobj(data):
+                # a complex-valued form: keep the imaginary part
+                data = data.astype(complex)
+            data[:, i, 0] = values_e
 
         return data
 
